@@ -38,7 +38,7 @@ def one(path):
 
 
 def main():
-    paths = sorted(sys.argv[1:] or glob.glob(os.path.join(HERE, "refactors", "*", "*.diff")))
+    paths = sorted(sys.argv[1:] or [p for p in glob.glob(os.path.join(HERE, "refactors", "*", "*.diff")) if "/stale/" not in p])
     with ProcessPoolExecutor(max_workers=8) as ex:
         for path, st, out in ex.map(one, paths):
             name = "/".join(path.split("/")[-2:])
